@@ -25,6 +25,45 @@ CHECKS = {
     ),
 }
 
+CHECKS.update({
+    "C01": (
+        "Hypothesis-generated synthetic reactions x builder configurations; validity predicate over HelicityModel symbols",
+        "Generated-input search over hand-built ReactionInfo objects (1-3 isobar topologies with relabelled final states,"
+        " arbitrary spins/parities/masses, partial helicity sets, identical particles, both formalisms) x all builder"
+        " configuration fields; each model is checked symbolically: expression free symbols are parameter xor kinematic"
+        " variable, no amplitude symbol undefined, kinematic variables depend on final-state momenta only.",
+        "Trusts the synthetic-reaction generator to follow qrules' conventions (vp/gen/reactions.py) and sympy's"
+        " free_symbols/xreplace. Axis-angle cases limited to final spins <= 1 for cost.",
+        "DESIGN.md §4 C01",
+    ),
+    "C08": (
+        "Hypothesis-generated momentum batches / angles, cse on/off; numpy invariants of Lorentz transformations",
+        "Generated batches of time-like momenta (beta*gamma 1e-6..1e4, axis-aligned and generic directions) and angles;"
+        " every identity of the statement is checked on the lambdified arrays in plain numpy with tolerances"
+        " K*eps*gamma^2, incl. products through the library's einsum code and code-vs-as_explicit agreement.",
+        "Trusts numpy linear algebra; momentum exactly at rest (0/0 in the general boost) is outside the domain.",
+        "DESIGN.md §4 C08",
+    ),
+    "C19": (
+        "Hypothesis-generated three-body events; 50-digit mpmath geometry oracle vs lambdified DPD angle expressions",
+        "Physical Dalitz points by construction (generated events incl. collinear/threshold limits, massless and equal"
+        " masses); all 60 defined angle expressions compared with angles computed from the four-momenta, all stated"
+        " identities and sum rules, arccos-argument range; the 96-tuple definedness table is enumerated exhaustively.",
+        "Trusts mpmath arithmetic and the event generator in vp/ref/dalitz.py; tolerances scale with the measured"
+        " Kallen-function cancellation.",
+        "DESIGN.md §4 C19",
+    ),
+    "C20": (
+        "Hypothesis-generated events and (sigma1, sigma2) grid points relative to the PDG Dalitz limits; mpmath oracle",
+        "Events (sigma3, Kibble <= 0, indicator 1) and bounding-box points placed at drawn distances on both sides of the"
+        " PDG limits (indicator iff between limits, else the caller's outside value), Kallen symmetry/factorisation in"
+        " doubles, exact rationals and symbolically.",
+        "Points within 1e-9 relative of a limit or below double resolution of the degree-8 Kibble polynomial are"
+        " labelled and not asserted either way.",
+        "DESIGN.md §4 C20",
+    ),
+})
+
 NOT_CLAIMED: dict[str, str] = {}
 DEFAULT_REASON = "check not built yet in this round (planned: DESIGN.md §4); no verdict is claimed"
 
